@@ -25,7 +25,7 @@
    under every partition are the leftmost-longest tokenisation of the stream. *)
 From Coq Require Import List NArith Arith Bool.
 From SNT Require Export Base.Outcome Base.Report Automata.DfaData Automata.Tokenizer Gen.ProdDFA
-  Decoder.Payload Decoder.Events.
+  Decoder.Payload Decoder.Events Automata.Regex.
 Import ListNotations.
 Local Open Scope N_scope.
 
@@ -50,7 +50,8 @@ Definition out_eqb (a b : out) : bool :=
 Definition run_rec := (list nat * out)%type.
 
 Inductive c03_case :=
-| Gen (d : dfa_data) (input : list N) (runs : list run_rec)
+| Gen (pats : list (regex * bool * bool)) (d : dfa_data) (input : list N) (runs : list run_rec)
+      (* the patterns: regular expression (Automata/Regex.v), registered as literal item, decoder rejects odd-length matches *)
 | Prod (which : N) (input : list N) (table : list (list N * option N)) (runs : list run_rec)
        (steps : option (list nat))   (* reader position after each decode() that returned an event, whole stream in one reader *)
 | Utf8 (input : list N) (runs : list run_rec).
@@ -134,12 +135,15 @@ Section Steps.
                    input 0 0.
 End Steps.
 
-(* Gen: items are (pattern index, matched bytes); patterns registered as literal items carry no bytes *)
-Definition gen_item (d : dfa) (q : N) (buf : list N) : option (N * list N) :=
+(* Gen: items are (pattern index, matched bytes); patterns registered as literal items carry no bytes;
+   a pattern may be registered with a decoder that rejects matches of odd length *)
+Definition rejects_of (pats : list (regex * bool * bool)) (i : N) : bool :=
+  match nth_error pats (N.to_nat i) with Some (_, _, r) => r | None => false end.
+Definition gen_item (pats : list (regex * bool * bool)) (d : dfa) (q : N) (buf : list N) : option (N * list N) :=
   match d_tag d q with
   | Some (true, k) => Some (k, [])
-  | Some (false, i) => Some (i, buf)
-  | None => None
+  | Some (false, i) => if rejects_of pats i && Nat.odd (length buf) then None else Some (i, buf)
+  | None => None        (* the code panics here; excluded by `tagged_ok` in the check *)
   end.
 Definition gen_render (t : tok (N * list N)) : itok :=
   match t with
@@ -165,6 +169,57 @@ Definition prod_render (t : tok N) : itok :=
   | TItem c _ => IT c []
   | TRaw sp => RW sp
   end.
+
+(* ---- Gen at the level of the LANGUAGES of the patterns (Automata/Regex.v, verified matcher of C15) ----
+   For each emitted token, with the bytes it stands for (offsets from the spans of `munch`):
+   an item of pattern i: pattern i matches the span; no pattern of higher priority (literal items
+   by index, then matchers by index: the order of BTreeSet<MatcherTag>) matches it; NO pattern matches
+   any longer prefix of the remaining stream; a matcher pattern returns exactly the span;
+   a raw token: either no pattern matches any non-empty prefix of the remaining stream, or the span is
+   the longest match and the highest-priority pattern matching it rejects it (odd length). *)
+Definition spans_of (d : dfa) {Item} (decode_item : N -> list N -> option Item) (input : list N) : list (list N) :=
+  map span (fst (munch N Item (d_start d) (d_delta d) (d_accepting d) (d_terminal d) decode_item input)).
+
+Definition pat_matches (pats : list (regex * bool * bool)) (s : list N) : list N :=
+  (* indices of the patterns matching s, in priority order *)
+  let idx := map N.of_nat (seq 0 (length pats)) in
+  let m (want_item : bool) :=
+    filter (fun i => match nth_error pats (N.to_nat i) with
+                     | Some (e, it, _) => Bool.eqb it want_item && matcher e s
+                     | None => false
+                     end) idx in
+  m true ++ m false.
+
+Definition no_longer_match (pats : list (regex * bool * bool)) (rest : list N) (k : nat) : bool :=
+  forallb (fun j => match pat_matches pats (firstn j rest) with [] => true | _ => false end)
+          (seq (S k) (length rest - k)).
+
+Fixpoint lang_tokens (pats : list (regex * bool * bool)) (spans : list (list N)) (rest : list N) (toks : list itok) : bool :=
+  match spans, toks with
+  | [], [] => true
+  | sp :: spans', t :: toks' =>
+      let k := length sp in
+      nlist_eqb (firstn k rest) sp
+      && no_longer_match pats rest k
+      && match pat_matches pats sp, t with
+         | [], RW b => nlist_eqb b sp
+         | i :: _, RW b => nlist_eqb b sp && rejects_of pats i && Nat.odd k
+                           && match nth_error pats (N.to_nat i) with Some (_, false, _) => true | _ => false end
+         | i :: _, IT j b =>
+             (i =? j)
+             && match nth_error pats (N.to_nat i) with
+                | Some (_, true, _) => match b with [] => true | _ => false end
+                | Some (_, false, r) => nlist_eqb b sp && negb (r && Nat.odd k)
+                | None => false
+                end
+         | [], IT _ _ => false
+         end
+      && lang_tokens pats spans' (skipn k rest) toks'
+  | _, _ => false
+  end.
+
+Definition lang_ok (pats : list (regex * bool * bool)) (spans : list (list N)) (input : list N) (o : out) : bool :=
+  match o with Some toks => lang_tokens pats spans input toks | None => false end.
 
 (* Utf8Decoder: model and specification *)
 Definition u8_render (x : uout) : itok := match x with UChar c => IT c [] | UErr => RW [] end.
@@ -198,10 +253,12 @@ Definition all_equal (runs : list run_rec) : bool :=
 
 Definition c03_check (c : c03_case) : bool * bool :=
   match c with
-  | Gen dd input runs =>
+  | Gen pats dd input runs =>
       let d := compile dd in
-      let '(a, h) := check_runs d (gen_item d) gen_render input runs in
-      (data_ok dd && a, h)
+      let '(a, h) := check_runs d (gen_item pats d) gen_render input runs in
+      (* an accepting state without a tag makes the code panic (`expect`): never with these dumps *)
+      (data_ok dd && tagged_ok d && a,
+       h && forallb (fun r : run_rec => lang_ok pats (spans_of d (gen_item pats d) input) input (snd r)) runs)
   | Prod which input table runs steps =>
       let d := if which =? 0 then event_dfa else command_dfa in
       let '(a, h) := check_runs d (prod_item table) prod_render input runs in
